@@ -43,6 +43,20 @@ impl Rng {
     }
 }
 
+/// A TCP port for a listener that the code under test binds by itself (Server::builder takes an address, not a listener): chosen
+/// BELOW the kernel's ephemeral range (32768..60999), along a per-process stride, and free at the moment of the probe - so neither an
+/// outgoing connection nor another process's `bind(0)` (a second check running at the same time) can take it between the probe
+/// and the server's own bind, which a "bind port 0, read the port, release" probe allows.
+pub fn listen_port() -> u16 {
+    static NEXT: std::sync::atomic::AtomicU32 = std::sync::atomic::AtomicU32::new(0);
+    let pid = std::process::id();
+    loop {
+        let k = NEXT.fetch_add(1, std::sync::atomic::Ordering::SeqCst);
+        let port = 10000 + (pid.wrapping_mul(7919).wrapping_add(k.wrapping_mul(13)) % 22000) as u16;
+        if let Ok(l) = std::net::TcpListener::bind(("127.0.0.1", port)) { drop(l); return port; }
+    }
+}
+
 pub fn hex(b: &[u8]) -> String {
     const H: &[u8; 16] = b"0123456789abcdef";
     let mut s = String::with_capacity(b.len() * 2 + 1);
